@@ -1,10 +1,11 @@
 /-
   DDProofs.MddTotal — `bdd_to_mdd` returns normally (and then `B2MOK` holds): none of the code's
-  assertions or lookups can fail.  Residual hypothesis: the unique table `_pred` has no stray
-  entries when `assert_consistent()` is called (`PredExact`; main proves the corresponding
-  `PredNodes` for `find_or_add` / `ite` / `var` only, not through `collect_garbage` / `swap`).
+  assertions or lookups can fail.  `assert_consistent()` needs that the unique table `_pred` has no
+  stray entries (`PredExact`); DDProofs.MddPredShape derives it from "every key of `_pred` is a
+  triple" (`KeysShaped`), which `collect_garbage` and `swap` preserve.
 -/
 import DDProofs.MddTotalLoop
+import DDProofs.MddPredShape
 open Std
 
 namespace DD
@@ -46,8 +47,9 @@ theorem bddToMdd_gen (ext : Nat → Nat) (mb : Mgr) (h : ReorderInv ext mb) (dva
     (hd : DvarsFull mb.tbl dvars) (lev : Option (List Nat)) {E : Err → Prop} {P : Mgr → Prop}
     (S : SwapOK E P (ReorderRel ext))
     (hP : ∀ m, P m → ReorderInv ext m ∧ NoGarbage m)
-    (hP1 : ∀ m1, ReorderInv ext m1 → NoGarbage m1 → m1.sched = mb.sched → P m1)
-    (hpe : ∀ p m2, b2mPrepare dvars mb = (.ok p, m2) → PredExact m2) :
+    (hP1 : ∀ m1, collectGarbage none mb = (.ok (), m1) → ReorderInv ext m1 → NoGarbage m1 →
+      m1.sched = mb.sched → P m1)
+    (hpe : ∀ m, P m → PredExact m) :
     OkOr (fun e => E e ∨ (lev.isSome = true ∧ e = Err.sched))
       (fun out mb' => B2MOK ext dvars mb out mb') (bddToMdd dvars lev mb) := by
   have G := b2mPrepare_gen ext mb h dvars hd S hP hP1
@@ -64,7 +66,7 @@ theorem bddToMdd_gen (ext : Nat → Nat) (mb : Mgr) (h : ReorderInv ext mb) (dva
       obtain ⟨hPrep, hng, hrm, hPm2⟩ := G
       have hI2 := hPrep.inv
       have hac := bddAssertConsistent_ok m2 ext hI2.inv hI2.refExact
-        (fun r hr => (Mgr.mem_iff m2 r).mp ((swapOK ext).roots m2 hI2 r hr)) (hpe p m2 hprep)
+        (fun r hr => (Mgr.mem_iff m2 r).mp ((swapOK ext).roots m2 hI2 r hr)) (hpe m2 hPm2)
       cases hord : bddLevelsOrder p.tbl lev with
       | error e =>
         have hes : e = Err.sched ∧ lev.isSome = true := by
@@ -100,23 +102,40 @@ theorem bddToMdd_gen (ext : Nat → Nat) (mb : Mgr) (h : ReorderInv ext mb) (dva
         rw [hr]
         exact bddToMdd_spec ext mb h dvars hd.toDvarsOK lev out m2 hr
 
+/-- the swap contract, extended with "every key of `_pred` is a triple" -/
+theorem swapOK_shaped {E : Err → Prop} {P : Mgr → Prop} {R : Mgr → Mgr → Prop} (S : SwapOK E P R) :
+    SwapOK E (fun m => P m ∧ KeysShaped m) R := by
+  refine ⟨S.refl, S.trans, fun m h => S.vars m h.1, fun m h => S.roots m h.1, ?_⟩
+  intro m i h hi
+  have hs := S.step m i h.1 hi
+  cases hrun : swapBody i (i + 1) m with
+  | mk r m' =>
+    rw [hrun] at hs
+    cases r with
+    | error e => exact hs
+    | ok a =>
+      obtain ⟨h1, h2, h3, h4⟩ := hs
+      exact ⟨⟨h1, h.2.le (Shp.swapBody _ _ m _ m' hrun)⟩, h2, h3, h4⟩
+
 /-- for every recorded schedule: `bdd_to_mdd` returns normally (and is correct), the only
 alternative being the model's own report that the recorded iteration orders do not fit -/
-theorem bddToMdd_okOrSched (ext : Nat → Nat) (mb : Mgr) (h : ReorderInv ext mb) (dvars : List MVar)
-    (hd : DvarsFull mb.tbl dvars) (lev : Option (List Nat))
-    (hpe : ∀ p m2, b2mPrepare dvars mb = (.ok p, m2) → PredExact m2) :
+theorem bddToMdd_okOrSched (ext : Nat → Nat) (mb : Mgr) (h : ReorderInv ext mb) (hks : KeysShaped mb)
+    (dvars : List MVar) (hd : DvarsFull mb.tbl dvars) (lev : Option (List Nat)) :
     OkOrSched (fun out mb' => B2MOK ext dvars mb out mb') (bddToMdd dvars lev mb) := by
-  refine OkOr.monoE ?_ (bddToMdd_gen ext mb h dvars hd lev (swapOKng ext) (fun m hm => hm)
-    (fun m1 a b _ => ⟨a, b⟩) hpe)
+  refine OkOr.monoE ?_ (bddToMdd_gen ext mb h dvars hd lev (swapOK_shaped (swapOKng ext))
+    (fun m hm => hm.1)
+    (fun m1 hgc a b _ => ⟨⟨a, b⟩, hks.le (Shp.collectGarbage none mb _ m1 hgc)⟩)
+    (fun m hm => hm.2.exact hm.1.1.inv))
   rintro e (he | ⟨_, he⟩) <;> exact he
 
 /-- with no recorded schedule (the model iterates in ascending order): total -/
-theorem bddToMdd_total (ext : Nat → Nat) (mb : Mgr) (h : ReorderInv ext mb) (hs : mb.sched = [])
-    (dvars : List MVar) (hd : DvarsFull mb.tbl dvars)
-    (hpe : ∀ p m2, b2mPrepare dvars mb = (.ok p, m2) → PredExact m2) :
+theorem bddToMdd_total (ext : Nat → Nat) (mb : Mgr) (h : ReorderInv ext mb) (hks : KeysShaped mb)
+    (hs : mb.sched = []) (dvars : List MVar) (hd : DvarsFull mb.tbl dvars) :
     ∃ out mb', bddToMdd dvars none mb = (.ok out, mb') ∧ B2MOK ext dvars mb out mb' := by
-  have := bddToMdd_gen ext mb h dvars hd none (swapOKng0 ext) (fun m hm => hm.1)
-    (fun m1 a b c => ⟨⟨a, b⟩, by rw [c]; exact hs⟩) hpe
+  have := bddToMdd_gen ext mb h dvars hd none (swapOK_shaped (swapOKng0 ext))
+    (fun m hm => hm.1.1)
+    (fun m1 hgc a b c => ⟨⟨⟨a, b⟩, by rw [c]; exact hs⟩, hks.le (Shp.collectGarbage none mb _ m1 hgc)⟩)
+    (fun m hm => hm.2.exact hm.1.1.1.inv)
   have h2 : OkOr NoErr (fun out mb' => B2MOK ext dvars mb out mb') (bddToMdd dvars none mb) := by
     refine OkOr.monoE ?_ this
     rintro e (he | ⟨hc, _⟩)
